@@ -12,7 +12,7 @@ from __future__ import annotations
 import ast
 
 from mlmverif import cfg as cfgm
-from mlmverif.core import (AnalysisError, Ctx, FuncInfo, is_self_attr, norm,
+from mlmverif.core import (parent_map, AnalysisError, Ctx, FuncInfo, is_self_attr, norm,
                            unparse, walk_no_nested)
 from mlmverif.props._agg import MERGE_NAMES, model
 from mlmverif.props import c11
@@ -42,7 +42,7 @@ MAX_FNS = {'np.maximum', 'np.max', 'max', 'np.nanmax', 'np.fmax', 'np.amax'}
 
 def run(ctx: Ctx):
   m = model(ctx)
-  for r in (r1, r2, r3, r4, r5, r6, r7):
+  for r in (r1, r2, r3, r4, r5, r6, r7, r10):
     ctx.guard(r, m)
   ctx.include('R-C01-8', 'merge leaves its operand intact and shares no'
               ' mutable state with it (R-C11-1, R-C11-2): a shard state that'
@@ -630,11 +630,91 @@ def _writes_in(m, fi, node, fld, ci, loop=None) -> bool:
   return False
 
 
+_DEDUP = ('set', 'frozenset', 'np.unique', 'numpy.unique', 'dict.fromkeys', 'mit.unique_everseen',
+          'more_itertools.unique_everseen')
+_GROW = ('append', 'extend', 'add', 'update', 'insert')
+
+
+def r10(ctx: Ctx, m):
+  rule = 'R-C01-10'
+  ctx.rule(rule, '"a metric value for one example never depends on which other'
+           ' examples share its batch" (counting metrics): in the accumulation'
+           ' methods that loop over the examples of a batch, a de-duplication'
+           ' (set / unique / dict.fromkeys) is never applied to a collection'
+           ' that gathers items ACROSS the examples of the batch — duplicates'
+           ' may only be removed within one example, otherwise the count an'
+           ' example contributes depends on its batch mates')
+  n = 0
+  for ci in m.classes:
+    for name in ('add', 'new', 'update', '__call__', 'update_state'):
+      fi = ci.methods.get(name)
+      if fi is None:
+        continue
+      params = set(fi.params()[1:])
+      if not params:
+        continue
+      pm = parent_map(fi.node)
+      for lp in walk_no_nested(fi.node):
+        if not isinstance(lp, ast.For):
+          continue
+        it_names = {x.id for x in ast.walk(lp.iter) if isinstance(x, ast.Name)}
+        if not (it_names & params):
+          continue
+        # only the outermost loop over the batch
+        q = pm.get(lp)
+        nested = False
+        while q is not None and q is not fi.node:
+          if isinstance(q, (ast.For, ast.While)):
+            nested = True
+          q = pm.get(q)
+        if nested:
+          continue
+        n += 1
+        inside = set(map(id, ast.walk(lp)))
+        # collections created outside the loop and grown inside it
+        created_out = {t.id for x in walk_no_nested(fi.node) if isinstance(x, ast.Assign)
+                       and id(x) not in inside for t in x.targets if isinstance(t, ast.Name)}
+        created_in = {t.id for x in ast.walk(lp) if isinstance(x, ast.Assign)
+                      for t in x.targets if isinstance(t, ast.Name)}
+        grown = set()
+        for x in ast.walk(lp):
+          if isinstance(x, ast.Call) and isinstance(x.func, ast.Attribute) and x.func.attr in _GROW and (
+              isinstance(x.func.value, ast.Name)):
+            grown.add(x.func.value.id)
+          if isinstance(x, ast.AugAssign) and isinstance(x.target, ast.Name):
+            grown.add(x.target.id)
+        cross = (grown & created_out) - created_in
+        bad = None
+        for x in walk_no_nested(fi.node):
+          if isinstance(x, ast.Call) and unparse(x.func) in _DEDUP and x.args:
+            used = {y.id for y in ast.walk(x.args[0]) if isinstance(y, ast.Name)}
+            if used & cross:
+              bad = (x, sorted(used & cross))
+        if bad:
+          node, names = bad
+          ctx.fail(rule, fi, f'{ci.name}.{name}: de-duplication per example, not per batch',
+                   f'{ci.name}.{name} removes duplicates from `{names[0]}`, which'
+                   ' gathers items across all examples of the batch'
+                   f' (`{unparse(node)[:40]}`): what one example contributes now'
+                   ' depends on the other examples in its batch, so different'
+                   ' batchings of the same data give different results', node=node)
+        else:
+          ctx.ok(rule, fi, f'{ci.name}.{name}: loop over {sorted(it_names & params)} keeps'
+                 ' de-duplication (if any) within one example', lp)
+  ctx.floor(rule, 1, n)
+
+
 from mlmverif.selfcheck import B, OK  # noqa: E402
 
 _R = 'aggregates/rolling_stats.py'
 _C = 'aggregates/classification.py'
 VARIANTS = [
+    B('ngram-dedup-per-batch', 'aggregates/text.py',
+      "    ngrams_counter = collections.Counter()\n    for text in texts:\n      # Remove non-alphabetical and non-space characters\n      words = re.sub(r'[^a-zA-Z ]+', '', text).lower().split()\n      if self.n <= len(words):\n        ngrams = []\n",
+      "    ngrams_counter = collections.Counter()\n    ngrams = []\n    for text in texts:\n      # Remove non-alphabetical and non-space characters\n      words = re.sub(r'[^a-zA-Z ]+', '', text).lower().split()\n      if self.n <= len(words):\n",
+      'R-C01-10',
+      extra=(('aggregates/text.py', '        if not self.count_duplicate:\n          ngrams = set(ngrams)\n        ngrams_counter.update(ngrams)\n',
+              '    if not self.count_duplicate:\n      ngrams = set(ngrams)\n    ngrams_counter.update(ngrams)\n'),)),
     B('rregression-drop-sum-yy', _R, '    self.sum_yy += other.sum_yy\n', '', 'R-C01-1'),
     B('minmax-merge-min-with-max', _R,
       '    self._min = np.min((self._min, other.min), axis=self.axis)',
